@@ -28,6 +28,7 @@ class compile_push_data:
 class get_opcode:
     props = ["C12", "C03"]
     sig = dict(self=Const(BitcoinScriptStreamer), script=Bytes(minlen=1, sample_max=90), pc=Int(0), verify_minimal_data=Bool())
+    returns = Tup(Int(), Opt(Bytes()), Int(), Bool())
     options = {'max_paths': 3000}
     # hybrid enumeration: one full-domain symbolic proof per opcode value (the decoder table is concrete)
     cases = [("op%d" % k, (lambda k: (lambda self, script, pc, verify_minimal_data: script[pc] == k))(k)) for k in range(256)]
